@@ -288,6 +288,11 @@ class ExprMixin:
             if z3.is_int_value(ln):
                 return z3.Or([self.py_eq(item, self.unbox(z3.Select(l.item, i)), n) for i in range(ln.as_long())] or [z3.BoolVal(False)])
             i = z3.Int('!ci')
+            rs = sym.simp(r)
+            view = self.run.slice_views.get(rs.as_long()) if z3.is_int_value(rs) else None
+            if view is not None:
+                base, lo_t, hi_t = view
+                return z3.Exists([i], z3.And(lo_t <= i, i < hi_t, z3.Select(base.item, i) == self.sv(item, n).t))
             return z3.Exists([i], z3.And(0 <= i, i < l.len, z3.Select(l.item, i) == self.sv(item, n).t))
         if k == 'set':
             return z3.Select(self.heap.get('$set', r), self.sv(item, n).t)
@@ -386,6 +391,18 @@ class ExprMixin:
         v = self.sv(v, n)
         if z3.is_true(sym.simp(sym.is_str(v.t))):
             return SV(Val.str(self.run.fresh('substr', z3.StringSort())))
+        if z3.is_true(sym.simp(sym.is_ref(v.t))) and set(self.classes_of(v)) <= {'list'}:
+            l = self.heap.l(sym.r_of(v.t))
+            lo_t = self.as_int(self.sv(lo, n)) if lo is not None else z3.IntVal(0)
+            hi_t = self.as_int(self.sv(hi, n)) if hi is not None else l.len
+            lo_t = z3.If(lo_t < 0, z3.If(l.len + lo_t < 0, 0, l.len + lo_t), z3.If(lo_t > l.len, l.len, lo_t))
+            hi_t = z3.If(hi_t < 0, z3.If(l.len + hi_t < 0, 0, l.len + hi_t), z3.If(hi_t > l.len, l.len, hi_t))
+            i = z3.Int('!sl')
+            r = self.run.alloc('list')
+            self.heap.put_l(r, ListT(sym.simp(z3.If(hi_t > lo_t, hi_t - lo_t, 0)), z3.Lambda([i], z3.Select(l.item, i + lo_t))))
+            # remembered as a view of the base list: membership tests quantify over the base indices (better triggers)
+            self.run.slice_views[r.as_long()] = (l, sym.simp(lo_t), sym.simp(hi_t))
+            return SV(sym.mk_ref(r), hint=frozenset(['list']))
         self.unsupported(n, 'slice of this value')
 
     def subscript_get(self, v, k, fr, n):
